@@ -73,3 +73,33 @@ VARIANTS += [
       "        objective_bounds=row[2],\n        bin_bounds=row[2])", "fire",
       "D12.6"),
 ]
+
+VARIANTS += [
+    V("outer-run-gets-inner-budget", "moptipyapps/binpacking2d/instgen/"
+      "experiment.py", "            .set_max_fes(MAX_FES)\n",
+      "            .set_max_fes(INNER_MAX_FES)\n", "fire", "D12.2"),
+    V("silent-outer-budget-keyword", "moptipyapps/binpacking2d/instgen/"
+      "experiment.py", "            .set_max_fes(MAX_FES)\n",
+      "            .set_max_fes(max_fes=MAX_FES)\n", "silent"),
+]
+
+VARIANTS += [
+    V("silent-record-positional", PRF,
+      "        end_result=end_result,\n"
+      "        n_items=instance.n_items,\n"
+      "        n_different_items=instance.n_different_items,\n"
+      "        bin_width=instance.bin_width, bin_height=instance.bin_height,"
+      "\n        objectives=objective_values,\n",
+      "        end_result, instance.n_items, instance.n_different_items,\n"
+      "        instance.bin_width, instance.bin_height, objective_values,\n",
+      "silent"),
+    V("record-positional-dimensions-swapped", PRF,
+      "        end_result=end_result,\n"
+      "        n_items=instance.n_items,\n"
+      "        n_different_items=instance.n_different_items,\n"
+      "        bin_width=instance.bin_width, bin_height=instance.bin_height,"
+      "\n        objectives=objective_values,\n",
+      "        end_result, instance.n_items, instance.n_different_items,\n"
+      "        instance.bin_height, instance.bin_width, objective_values,\n",
+      "fire", "D12.6"),
+]
